@@ -424,7 +424,7 @@ pub fn regwalk(s: &mut Session, cmd: &Value) -> Value {
     };
     let base = s.elf.base;
     let mut findings: Vec<Value> = vec![];
-    let (mut stops, mut compared, mut unavailable, mut skipped, mut upper_frame_compared, mut reg_located, mut scope_checked) = (0u64, 0u64, 0u64, 0u64, 0u64, 0u64, 0u64);
+    let (mut stops, mut compared, mut unavailable, mut skipped, mut upper_frame_compared, mut reg_located, mut scope_checked, mut bt_compared) = (0u64, 0u64, 0u64, 0u64, 0u64, 0u64, 0u64, 0u64);
     let mut skip_reasons: std::collections::BTreeMap<String, u64> = Default::default();
     let mut regs_seen: std::collections::BTreeSet<String> = Default::default();
     let mut samples: Vec<Value> = vec![];
@@ -443,6 +443,35 @@ pub fn regwalk(s: &mut Session, cmd: &Value) -> Value {
             break;
         }
         stops += 1;
+        // C05 on optimized code: the debugger's backtrace against this file's unwinder, frame by
+        // frame (instruction pointer = pc / return address, function = the subprogram DIE found here)
+        {
+            let d = s.dbg.as_ref().unwrap();
+            match d.backtrace(tid) {
+                Ok(bt) => {
+                    for (k, fr) in frames.iter().enumerate() {
+                        bt_compared += 1;
+                        let want_ip = if k == 0 { fr.lookup_pc } else { fr.lookup_pc + 1 };
+                        let want_fn = ref_vars(l, tid.as_raw(), base, fr).map(|x| x.0).unwrap_or_default();
+                        match bt.get(k) {
+                            None => findings.push(json!({"sig": "C05:optimized:backtrace-too-short", "detail": format!("step {step} pc {:#x}: the backtrace has {} frames, this reader's unwinder finds frame {k} ({want_fn}) at {want_ip:#x}", regs.rip.wrapping_sub(base), bt.len())})),
+                            Some(f) => {
+                                let ip = f.ip.as_u64();
+                                if ip != want_ip {
+                                    findings.push(json!({"sig": format!("C05:optimized:frame-address-differs:{}", if k == 0 { "innermost" } else { "caller" }), "detail": format!("step {step} pc {:#x}: frame {k} reported at {:#x}, the CFI of the frame below gives the return address {:#x} ({want_fn})", regs.rip.wrapping_sub(base), ip.wrapping_sub(base), want_ip.wrapping_sub(base))}));
+                                    break;
+                                }
+                                let name = f.func_name.clone().unwrap_or_default();
+                                if !want_fn.is_empty() && !(name == want_fn || name.ends_with(&format!("::{want_fn}"))) {
+                                    findings.push(json!({"sig": "C05:optimized:frame-function-differs", "detail": format!("step {step} pc {:#x}: frame {k} at {:#x} is named `{name}`, the subprogram that contains the call is `{want_fn}`", regs.rip.wrapping_sub(base), ip.wrapping_sub(base))}));
+                                }
+                            }
+                        }
+                    }
+                }
+                Err(e) => findings.push(json!({"sig": "C05:optimized:backtrace-failed", "detail": format!("step {step} pc {:#x}: {e}", regs.rip.wrapping_sub(base))})),
+            }
+        }
         let mut innermost = String::new();
         for (k, fr) in frames.iter().enumerate() {
             let (fname, vars, in_scope) = match ref_vars(l, tid.as_raw(), base, fr) {
@@ -537,7 +566,7 @@ pub fn regwalk(s: &mut Session, cmd: &Value) -> Value {
         }
     }
     findings.truncate(40);
-    json!({"ok": true, "stops": stops, "compared": compared, "compared_in_caller_frames": upper_frame_compared, "register_located": reg_located, "unavailable": unavailable, "scope_checked": scope_checked, "skipped": skipped, "skip_reasons": skip_reasons, "locations_seen": regs_seen, "functions": fns_seen, "findings": findings, "samples": samples, "ended": ended})
+    json!({"ok": true, "stops": stops, "compared": compared, "compared_in_caller_frames": upper_frame_compared, "register_located": reg_located, "unavailable": unavailable, "scope_checked": scope_checked, "backtrace_frames_compared": bt_compared, "skipped": skipped, "skip_reasons": skip_reasons, "locations_seen": regs_seen, "functions": fns_seen, "findings": findings, "samples": samples, "ended": ended})
 }
 
 // ------------------------------------------------------------------------------------------------
@@ -621,9 +650,15 @@ fn build(opt: u8, toolchain: &str) -> Result<String, String> {
     Ok(exe.display().to_string())
 }
 
-pub fn part_registers(tier: Tier) -> Part {
-    let mut part = Part::new("c19_registers");
+/// `prop` = "C19" (variables) or "C05" (backtrace): one walk produces both kinds of findings, each
+/// check reports its own.
+pub fn part_registers(tier: Tier, prop: &str) -> Part {
+    let mut part = Part::new(if prop == "C05" { "c05_optimized_code" } else { "c19_registers" });
+    if prop == "C05" {
+        part.rule = "the optimized program of C19's register part (no frame pointer, callee-saved registers pushed and popped around the body, recursion) walked with stepi from the entry of four functions until it is back in main: at EVERY instruction (prologues and epilogues included, where the CFA rule changes from one instruction to the next) the debugger's backtrace is compared frame by frame with an independent CFI unwinder (gimli decodes .eh_frame, the register rules are applied here): same number of frames inside the executable, same return addresses, and each frame named after the subprogram DIE that contains the call".into();
+    } else {
     part.rule = "std-linked program compiled with opt-level 1 (thorough: also 2, two toolchains): functions with six integer parameters (all argument registers), locals kept in callee-saved registers across calls, recursion, narrow and signed types; from the entry of each of four functions the program is walked with `stepi` until it is back in main (every instruction of every function, including the callees); at every stop and for every frame of the executable (set_frame_into_focus(k)) every scalar local and parameter is compared with an independent evaluation of its DWARF location: own scope walk, own location-list entry selection (half-open ranges, return address - 1 in caller frames), own DWARF register numbering over PTRACE_GETREGS, own CFI unwinder restoring the callee-saved registers of caller frames. A variable whose location evaluates must be shown with exactly that value; one without a location at that pc must not be shown with a value; entry-value expressions, vector registers and composite types are not compared".into();
+    }
     let configs: Vec<(u8, &str)> = if tier == Tier::Quick { vec![(1, "1.89")] } else { vec![(1, "1.89"), (2, "1.89"), (1, "stable"), (3, "stable")] };
     for (opt, tc) in &configs {
         let exe = match build(*opt, tc) {
@@ -640,7 +675,7 @@ pub fn part_registers(tier: Tier) -> Part {
             let replay = json!({"engine": "mt", "exe": exe, "commands": cmds});
             part.traces_validated += 1;
             if run.hang_at.is_some() || run.crashed.is_some() || run.obs.len() < 5 {
-                part.violate("C19:registers:session-broke", format!("[o{opt} {tc} {entry}] hang {:?} crash {:?}", run.hang_at, run.crashed), replay);
+                part.violate(format!("{prop}:optimized:session-broke"), format!("[o{opt} {tc} {entry}] hang {:?} crash {:?}", run.hang_at, run.crashed), replay);
                 continue;
             }
             let w = &run.obs[2]["res"];
@@ -650,18 +685,26 @@ pub fn part_registers(tier: Tier) -> Part {
             }
             part.states += w["stops"].as_u64().unwrap_or(0);
             part.transitions += w["stops"].as_u64().unwrap_or(0);
-            part.evaluations += w["compared"].as_u64().unwrap_or(0) + w["unavailable"].as_u64().unwrap_or(0);
-            part.distinct_nontrivial += w["register_located"].as_u64().unwrap_or(0);
+            if prop == "C05" {
+                part.evaluations += w["backtrace_frames_compared"].as_u64().unwrap_or(0);
+                part.distinct_nontrivial += w["backtrace_frames_compared"].as_u64().unwrap_or(0);
+            } else {
+                part.evaluations += w["compared"].as_u64().unwrap_or(0) + w["unavailable"].as_u64().unwrap_or(0);
+                part.distinct_nontrivial += w["register_located"].as_u64().unwrap_or(0);
+            }
             for f in w["findings"].as_array().cloned().unwrap_or_default() {
+                if !f["sig"].as_str().unwrap_or("").starts_with(prop) {
+                    continue;
+                }
                 part.violate(f["sig"].as_str().unwrap_or("C19:registers:?"), format!("[o{opt} {tc} {entry}] {}", f["detail"].as_str().unwrap_or("")), replay.clone());
             }
             if w["ended"] != "reached until_fn" {
                 part.violate("MACHINERY:regwalk-did-not-return-to-main", format!("[o{opt} {tc} {entry}] ended: {}", w["ended"]), replay.clone());
             }
-            part.sample(json!({"config": format!("o{opt} {tc}"), "entry": entry, "stops": w["stops"], "compared": w["compared"], "in_caller_frames": w["compared_in_caller_frames"], "unavailable": w["unavailable"], "skipped": w["skip_reasons"], "locations": w["locations_seen"], "examples": w["samples"]}));
+            part.sample(json!({"config": format!("o{opt} {tc}"), "entry": entry, "stops": w["stops"], "backtrace_frames_compared": w["backtrace_frames_compared"], "compared": w["compared"], "in_caller_frames": w["compared_in_caller_frames"], "unavailable": w["unavailable"], "skipped": w["skip_reasons"], "locations": w["locations_seen"], "examples": w["samples"]}));
             let stdout = run.result.as_ref().and_then(|r| r["stdout"].as_str()).unwrap_or("").to_string();
             if run.obs[4]["res"]["kind"] != "exit" || stdout != native {
-                part.violate("C19:registers:program-did-not-finish-natively", format!("[o{opt} {tc} {entry}] {} stdout {stdout:?} native {native:?}", run.obs[4]["res"]), replay.clone());
+                part.violate(format!("{prop}:optimized:program-did-not-finish-natively"), format!("[o{opt} {tc} {entry}] {} stdout {stdout:?} native {native:?}", run.obs[4]["res"]), replay.clone());
             }
         }
     }
